@@ -665,6 +665,25 @@ Proof.
   - split; [intros o Ho; discriminate|reflexivity].
 Qed.
 
+(** Segments of 1.92 s (25 fps, 48 frames): exactly the whole-second periods that are multiples of
+    48 s are accepted; periods_125 (28 s by integer division; 28.8 s = 15 segments as an exact
+    fraction of the hour) is rejected - a period is a whole number of SECONDS, since Period@start
+    and the reduceS bounds are whole seconds. *)
+Lemma fits_1920 P : 0 <= P -> ((P * 1000) mod 1920 = 0 <-> P mod 48 = 0).
+Proof. intros H. split; intros E; lia. Qed.
+
+Theorem reject_1920 w pph mode cont ast snr st now ases :
+  1 <= pph <= 3600 ->
+  ((periodDurOf pph) mod 48 <> 0 <-> exists e, splitPeriod false w pph 1920 mode cont ast snr st now ases = Err e).
+Proof.
+  intros Hp. pose proof (periodDur_pos pph Hp) as HP.
+  rewrite <- (splitPeriod_reject w pph 1920 mode cont ast snr st now ases Hp ltac:(lia)).
+  pose proof (fits_1920 (periodDurOf pph) ltac:(lia)) as F. tauto.
+Qed.
+
+Lemma periods_125_rejected : periodDurOf 125 = 28 /\ 28 mod 48 <> 0.
+Proof. split; [reflexivity|discriminate]. Qed.
+
 (** * Stop time: the period layout is frozen from the stop time on *)
 
 Theorem stop_frozen g w loopMS c now1 now2 s tsbdMS pph seg mode cont ases :
